@@ -1,7 +1,7 @@
 #!/usr/bin/env python3
 """Regenerates /verif/MANIFEST.json from the table below. Edit BUILT / TABLE, then run."""
 import json
-HOOKS=["fbc18f8","332056d","ac125c5","6c6870b"]
+HOOKS=["fbc18f8","332056d","ac125c5","6c6870b","ecb6d55"]
 # id -> (level, text, note, technique)
 TABLE={
 "C09":("fault_enumeration","One cache entry is driven through every enumerated crash point of a store (SIGKILL of a child process at each hook hit), every injected write/close failure, every single-file tampering and concurrent store/load histories with widened lock windows (processes, and goroutines under the race detector), with the production wiring (disk bucket + file locks). Every read outcome is classified by an oracle that recomputes the b5 digest independently: success with wrong content, a complete marker over incomplete content, an undetected module-file tamper, or a failed repair refutes the property. Exhaustive over the enumerated points of the generated modules.","Crash = process kill at hook granularity; no power-loss model. Trusts the independent digest construction (harness/model/digestmodel.go) and porcupine. 'not cached' after a completed store is allowed by the property and only counted.","runtime monitoring: crash-point/fault/tamper enumeration with history oracle + porcupine + Go race detector"),
